@@ -146,6 +146,9 @@ func (s *c01Sim) mutate(c *c01Member, e *verifadapt.Envelope, phase int) []*veri
 		r.Fault("byz-crashed-silent")
 		return nil
 	}
+	if s.mode == "C12" {
+		return s.mutateC12(c, e)
+	}
 	out := []*verifadapt.Envelope{}
 	// optional impersonation / foreign session copy sent BEFORE the genuine message
 	switch tp.Weighted("byz-extra", 12, 2, 1, 1) {
@@ -356,6 +359,66 @@ func (s *c01Sim) mutate(c *c01Member, e *verifadapt.Envelope, phase int) []*veri
 	return out
 }
 
+// mutateC12: the corrupt member follows the protocol but additionally
+// broadcasts messages that claim a member index its network key does not hold
+// (an honest member's, 0, n+1, 255) and, acting as an honest member's
+// concurrent other session, messages with a foreign session id. The forged
+// content is chosen so that ACCEPTING it damages an honest member (first
+// message per sender wins), which the agreement oracle then exposes.
+func (s *c01Sim) mutateC12(c *c01Member, e *verifadapt.Envelope) []*verifadapt.Envelope {
+	tp, r := s.tp, s.r
+	out := []*verifadapt.Envelope{}
+	k := tp.Weighted("c12-forge", 3, 5, 2, 2)
+	for i := 0; i < k; i++ {
+		kind := tp.Weighted("c12-kind", 6, 2, 3)
+		switch kind {
+		case 0: // claim an honest member's seat
+			v := s.pickMember("c12-victim", s.honest)
+			if f := s.forge(c, s.damaging(c, e.Sent, v, s.session)); f != nil {
+				out = append(out, f)
+				r.Fault("claim-honest-seat")
+			}
+		case 1: // out-of-range seats
+			v := []group.MemberIndex{0, group.MemberIndex(s.n + 1), 255}[tp.Choose("c12-oor", 3)]
+			if f := s.forge(c, s.damaging(c, e.Sent, v, s.session)); f != nil {
+				out = append(out, f)
+				r.Fault("claim-out-of-range-seat")
+			}
+		case 2: // an honest operator's OTHER session talks on the same channel
+			v := s.pickMember("c12-session-victim", s.honest)
+			if f := s.forge(s.m(v), s.damaging(c, e.Sent, v, s.session+"-other")); f != nil {
+				out = append(out, f)
+				r.Fault("foreign-session-message-from-honest-operator")
+			}
+		}
+	}
+	return append(out, e)
+}
+
+// damaging builds a message of the same kind as m, under claimed sender idx,
+// whose acceptance in place of idx's genuine message hurts idx.
+func (s *c01Sim) damaging(c *c01Member, m net.TaggedMarshaler, idx group.MemberIndex, session string) net.TaggedMarshaler {
+	switch x := m.(type) {
+	case *SecretSharesAccusationsMessage:
+		w := s.pickMember("c12-accused", s.honest)
+		return &SecretSharesAccusationsMessage{senderID: idx, sessionID: session, accusedMembersKeys: map[group.MemberIndex]*ephemeral.PrivateKey{
+			w: ephemeral.UnmarshalPrivateKey(s.randScalar("c12-key").Bytes())}}
+	case *PointsAccusationsMessage:
+		w := s.pickMember("c12-accused", s.honest)
+		return &PointsAccusationsMessage{senderID: idx, sessionID: session, accusedMembersKeys: map[group.MemberIndex]*ephemeral.PrivateKey{
+			w: ephemeral.UnmarshalPrivateKey(s.randScalar("c12-key").Bytes())}}
+	case *MisbehavedEphemeralKeysMessage:
+		w := s.pickMember("c12-revealed", s.honest)
+		return &MisbehavedEphemeralKeysMessage{senderID: idx, sessionID: session, privateKeys: map[group.MemberIndex]*ephemeral.PrivateKey{
+			w: ephemeral.UnmarshalPrivateKey(s.randScalar("c12-key").Bytes())}}
+	default:
+		// the corrupt member's own (well-formed) content under the victim's name:
+		// keys / commitments / shares / points that do not fit the victim's real ones
+		_ = x
+		return c01Reindex(m, idx, session)
+	}
+}
+
 // noteAccusations records who accused whom in phases 4 and 8 (diagnosis only).
 func (s *c01Sim) noteAccusations(mb *c01Member, genuine *verifadapt.Envelope, wire []*verifadapt.Envelope) {
 	keysOf := func(m net.TaggedMarshaler) (int, group.MemberIndex, map[group.MemberIndex]*ephemeral.PrivateKey) {
@@ -542,21 +605,51 @@ func c01Run(t *testing.T, r *verifsim.Run, mode string) {
 		}
 		nCorrupt = tp.Weighted("corrupt-count", w...)
 	}
-	perm := tp.Perm("corrupt-who", s.n)
-	isCorrupt := map[int]bool{}
-	for i := 0; i < nCorrupt; i++ {
-		isCorrupt[perm[i]+1] = true
+	// operator layout: seat i and i+1 may belong to the same operator (same
+	// network key). Corruption is per operator.
+	opOf := make([]int, s.n+1)
+	nOps := 0
+	for i := 1; i <= s.n; i++ {
+		if i > 1 && tp.Chance("same-operator", 1, 6) {
+			opOf[i] = opOf[i-1]
+			r.Probe("multi-seat-operator")
+		} else {
+			opOf[i] = nOps
+			nOps++
+		}
 	}
+	seatsOf := make([][]int, nOps)
+	for i := 1; i <= s.n; i++ {
+		seatsOf[opOf[i]] = append(seatsOf[opOf[i]], i)
+	}
+	perm := tp.Perm("corrupt-who", nOps)
+	isCorrupt := map[int]bool{}
+	got := 0
+	for _, op := range perm {
+		if got+len(seatsOf[op]) <= nCorrupt {
+			for _, seat := range seatsOf[op] {
+				isCorrupt[seat] = true
+			}
+			got += len(seatsOf[op])
+		}
+	}
+	nCorrupt = got
 	start := uint64(2 + tp.Choose("start", 4))
-	r.Logf("cfg mode=%s n=%d t=%d corrupt=%d start=%d", mode, s.n, s.t, nCorrupt, start)
+	r.Logf("cfg mode=%s n=%d t=%d corrupt=%d operators=%v start=%d", mode, s.n, s.t, nCorrupt, opOf[1:], start)
 
 	// --- nodes, keys, membership ---
 	s.sn = verifadapt.NewNet()
 	logger := log.Logger("verif-gjkr")
 	var addrs []chain.Address
 	var signing chain.Signing
+	opNode := make([]*verifadapt.NetNode, nOps)
 	for i := 1; i <= s.n; i++ {
-		nn := s.sn.AddNode(local_v1.DefaultCurve)
+		nn := opNode[opOf[i]]
+		if nn == nil {
+			nn = s.sn.AddNode(local_v1.DefaultCurve)
+			opNode[opOf[i]] = nn
+			RegisterUnmarshallers(nn.Channel("gjkr"))
+		}
 		if signing == nil {
 			signing = local_v1.NewSigner(nn.Priv)
 		}
@@ -566,11 +659,10 @@ func c01Run(t *testing.T, r *verifsim.Run, mode string) {
 		}
 		addrs = append(addrs, a)
 		mb := &c01Member{idx: group.MemberIndex(i), node: nn, blocks: verifadapt.NewNodeBlocks(0), ch: nn.Channel("gjkr"), corrupt: isCorrupt[i]}
-		RegisterUnmarshallers(mb.ch)
 		s.members = append(s.members, mb)
 		if mb.corrupt {
 			s.corrupt = append(s.corrupt, mb.idx)
-			if tp.Chance("byz-crash", 1, 6) {
+			if mode != "C12" && tp.Chance("byz-crash", 1, 6) {
 				phases := []int{1, 3, 4, 7, 8, 10}
 				mb.silentFrom = phases[tp.Choose("byz-crash-phase", len(phases))]
 			}
@@ -630,7 +722,7 @@ func c01Run(t *testing.T, r *verifsim.Run, mode string) {
 			// Byzantine rewriting, in canonical sender order
 			var outgoing []*verifadapt.Envelope
 			for _, e := range envs {
-				mb := s.members[e.From]
+				mb := s.m(e.Sent.(interface{ SenderID() group.MemberIndex }).SenderID())
 				if m1, ok := e.Sent.(*EphemeralPublicKeyMessage); ok {
 					s.p1[mb.idx] = m1
 				}
@@ -694,8 +786,8 @@ func c01Run(t *testing.T, r *verifsim.Run, mode string) {
 				order = append(order, order[k])
 				r.Fault("retransmission-duplicate")
 			}
-			for _, mb := range s.members {
-				s.sn.DeliverBatch(order, mb.node.Index)
+			for _, nn := range s.sn.Nodes {
+				s.sn.DeliverBatch(order, nn.Index)
 			}
 			synctest.Wait()
 		}
